@@ -2,6 +2,8 @@ package fullstack
 
 import (
 	"fmt"
+	dagpb "github.com/ipld/go-codec-dagpb"
+	"github.com/ipld/go-ipld-prime/node/basicnode"
 	"math/rand"
 	"runtime"
 	"sync"
@@ -203,3 +205,6 @@ func MakeCase(idx int, d *gen.DAG, sel datamodel.Node, kind string, reqHas, resp
 	c.PertSeed = int64(idx)
 	return c
 }
+
+// refChooser is the default prototype chooser (same as go-graphsync's default).
+var refChooser = dagpb.AddSupportToChooser(basicnode.Chooser)
